@@ -65,8 +65,20 @@ def make_case(ver, probe, rec, nlines, mode=0):
     chk = 1
     if imprecise and any(code[k] in imprecise for k in range(0, len(code), 2)):
         chk = 0
+    linked = 1 if any(n.startswith("%v_codegen_") for n in [rec["name"]] + list(rec.get("ancestors", []))) else 0
     return [mode, T.VID[ver], code, rec["stacksize"], rec["nconsts"], rec["nnames"], rec["nlocals"], rec["nfreeidx"],
-            rec["firstlineno"], rec["linetable"], nlines, rec["exclen"], chk, effs]
+            rec["firstlineno"], rec["linetable"], nlines, rec["exclen"], chk, effs, linked, entry_depth(ver, rec)]
+
+
+def entry_depth(ver, rec):
+    """operand-stack depth at offset 0.  3.10 only: generator / coroutine / async generator frames are entered with the
+    sent value pushed (genobject.c gen_send_ex), which GEN_START pops (compile.c stackdepth(): b_startdepth = 1)"""
+    CO_GENERATOR, CO_COROUTINE, CO_ASYNC_GENERATOR = 0x20, 0x80, 0x200
+    # 3.11: the frame is resumed after RETURN_GENERATOR with the sent value pushed, which the following POP_TOP pops;
+    # dis.stack_effect(RETURN_GENERATOR) is 0 in 3.11 (1 since 3.12), so the push is accounted for at the entry as well
+    if ver in ("3.10", "3.11") and rec.get("flags", 0) & (CO_GENERATOR | CO_COROUTINE | CO_ASYNC_GENERATOR):
+        return 1
+    return 0
 
 
 # ------------------------------------------------------------------ reference (independent of the Coq model)
@@ -96,8 +108,8 @@ def reference(ver, probe, rec):
     if not nodes:
         return {"status": "empty"}
     seen = [set() for _ in nodes]
-    work = [(0, 0)]
-    maxd = 0
+    work = [(0, entry_depth(ver, rec))]
+    maxd = entry_depth(ver, rec)
     while work:
         k, d = work.pop()
         if d in seen[k]:
